@@ -18,6 +18,8 @@
 (*   op = "vh": like rt, the value built through a history of public mutators (setv: [items, n, members] with extra line  *)
 (*              fields init, muts) or a datetime of some tzinfo kind; clauses VHRaised, VHRoundTrip, VHRedumpRaised,          *)
 (*              VHNormalForm, VHDumpStable.                                                                              *)
+(*   op = "la": like rt, values that contain the codec's own syntax as text; clauses LARaised, LARoundTrip, LARedumpRaised,   *)
+(*              LANormalForm (drift as for rt).                                                                         *)
 (*   op = "hist": one step of a history with aliasing: v = the value, dumped = its text, parsed = the result of a parse  *)
 (*              call made after earlier parse results (or the value before dumping) were mutated; codecs cookie      *)
 (*              (<<<<key, value>>>>) and accept (<<<<range, q thousandths>>>>) occur only here.  Clauses HistRaised,      *)
@@ -100,6 +102,14 @@ Verdict(r) ==
      ELSE IF ~Same(c, r.reparsed, r.parsed) THEN "VHNormalForm"
      ELSE IF c # "etags" /\ r.redumped # r.dumped THEN "VHDumpStable"            \* dump(parse(dump(v))) = dump(v)
      ELSE "ok"
+  ELSE IF r.op = "la" THEN
+     \* structure look-alikes: the value contains the codec's own syntax as text (separators, key=value, quotes, backslashes)
+     IF ~Dom(c, r.v) THEN "OutOfDomain"
+     ELSE IF r.err # "" THEN "LARaised"
+     ELSE IF ~Same(c, r.parsed, r.v) THEN "LARoundTrip"                          \* same pairs, same count: no extra / overridden keys
+     ELSE IF r.err2 # "" THEN "LARedumpRaised"
+     ELSE IF ~Same(c, r.reparsed, r.parsed) THEN "LANormalForm"
+     ELSE "ok"
   ELSE IF r.op = "hist" THEN
      \* one step of a history with aliasing (see harness/headercodec.py: run_history): v is the value the text `dumped`
      \* was serialised from, parsed what THIS parse call returned after earlier results / the value were mutated
@@ -162,7 +172,7 @@ Small(s) == Len(s) <= 160
 DriftOK(r) ==
   LET c == r.codec IN
   IF r.err # "" \/ ~Small(r.dumped) \/ ~Small(r.redumped) THEN TRUE
-  ELSE IF r.op = "rt" THEN (c = "etags" \/ r.dumped = MDump(c, r.v)) /\ MParseOK(c, r.dumped, r.parsed) /\ (c = "cachecontrol" => CCValueOK(r.v))
+  ELSE IF r.op \in {"rt", "la"} THEN (c = "etags" \/ r.dumped = MDump(c, r.v)) /\ MParseOK(c, r.dumped, r.parsed) /\ (c = "cachecontrol" => CCValueOK(r.v))
   ELSE IF r.op = "vh" /\ c = "setv" THEN SetvOK(r)
   ELSE IF r.op = "nf" THEN ~Small(r.v) \/ MParseOK(c, r.v, r.parsed)
   ELSE TRUE
